@@ -780,8 +780,8 @@ func harnesses() []harness {
 				}
 			}
 			t := open()
-			keys := []string{"a", "b", "c", "d", "e", "f", "g", "h", "i"}
-			for _, k := range keys[:8] {
+			keys := []string{"a", "b", "c", "d", "e", "f", "g"}
+			for _, k := range keys[:6] {
 				_, err := t.Set([]byte(k), []byte("1"))
 				must(err)
 			}
@@ -801,21 +801,26 @@ func harnesses() []harness {
 				must(t.Close())
 				t = open()
 			}
-			v3 := map[string]string{"a": "1", "b": "2", "c": "3", "e": "1", "f": "1", "g": "1", "h": "1"}
-			v4 := map[string]string{"a": "9", "b": "2", "c": "3", "e": "1", "f": "1", "h": "9", "i": "9"}
+			// a traversal goroutine of the prelude releases the read lock after it has closed its channel, i.e.
+			// possibly after Close returned: wait for all of them, the controlled run must start with a free lock
+			if q, ok := interface{}(mdb).(interface{ VerifQuiesce() }); ok {
+				q.VerifQuiesce()
+			}
+			v3 := map[string]string{"a": "1", "b": "2", "c": "3", "e": "1", "f": "1"}
+			v4 := map[string]string{"a": "9", "b": "2", "c": "3", "f": "9", "g": "9"}
 			var rw, rr rec
 			writer := func() {
 				if _, err := t.Set([]byte("a"), []byte("9")); err != nil {
 					rw.add("writer: Set(a): %v", err)
 				}
-				if _, ok, err := t.Remove([]byte("g")); err != nil || !ok {
-					rw.add("writer: Remove(g) = %v, %v", ok, err)
+				if _, ok, err := t.Remove([]byte("e")); err != nil || !ok {
+					rw.add("writer: Remove(e) = %v, %v", ok, err)
 				}
-				if _, err := t.Set([]byte("h"), []byte("9")); err != nil {
-					rw.add("writer: Set(h): %v", err)
+				if _, err := t.Set([]byte("f"), []byte("9")); err != nil {
+					rw.add("writer: Set(f): %v", err)
 				}
-				if _, err := t.Set([]byte("i"), []byte("9")); err != nil {
-					rw.add("writer: Set(i): %v", err)
+				if _, err := t.Set([]byte("g"), []byte("9")); err != nil {
+					rw.add("writer: Set(g): %v", err)
 				}
 				if _, v, err := t.SaveVersion(); err != nil || v != 4 {
 					rw.add("writer: SaveVersion = %d, %v", v, err)
@@ -853,8 +858,8 @@ func harnesses() []harness {
 				default:
 					rr.add("reader v%d scan is a MIXTURE of two versions (an open backend iterator is not a snapshot): %v, version 3 is %v, version 4 is %v", it.Version(), all, v3, v4)
 				}
-				v, err := it.Get([]byte("h"))
-				expectGet(&rr, fmt.Sprintf("reader v%d.Get(h)", it.Version()), v, err, content, "h")
+				v, err := it.Get([]byte("f"))
+				expectGet(&rr, fmt.Sprintf("reader v%d.Get(f)", it.Version()), v, err, content, "f")
 			}
 			return []func(){writer, reader}, func() string {
 				var re rec
@@ -1047,6 +1052,16 @@ func exploreSched(h harness, cfg c06Cfg, bound int, prefix []int32, st *schedSta
 	}
 }
 
+// c06Three: harnesses with three (or more) scheduler threads; they get one preemption less and more shards.
+func c06Three(name string) bool {
+	for _, p := range []string{"H3 ", "H4 ", "H5 ", "H8 ", "H10 ", "H11 ", "H12 ", "H13 "} {
+		if strings.HasPrefix(name, p) {
+			return true
+		}
+	}
+	return false
+}
+
 func c06Cfgs() []c06Cfg {
 	return []c06Cfg{{0, true, false}, {100, true, false}, {0, false, false}, {100, false, false}, {100, true, true}, {0, true, true}}
 }
@@ -1153,7 +1168,7 @@ func init() {
 				continue
 			}
 			for ci := range cfgs {
-				three := strings.HasPrefix(hs[hi].name, "H3") || strings.HasPrefix(hs[hi].name, "H4") || strings.HasPrefix(hs[hi].name, "H5") || strings.HasPrefix(hs[hi].name, "H8") || strings.HasPrefix(hs[hi].name, "H10") || strings.HasPrefix(hs[hi].name, "H11") || strings.HasPrefix(hs[hi].name, "H12")
+				three := c06Three(hs[hi].name)
 				if c.Tier == "quick" && three && ci != 1 && ci != 2 {
 					continue // quick: the 3-thread harnesses run under two configurations (cache 100 + index, cache 0 without)
 				}
@@ -1183,7 +1198,7 @@ func init() {
 				bin = raceBin
 				b = bound - 1
 			}
-			three := strings.HasPrefix(hs[j.hi].name, "H3") || strings.HasPrefix(hs[j.hi].name, "H4") || strings.HasPrefix(hs[j.hi].name, "H5") || strings.HasPrefix(hs[j.hi].name, "H8") || strings.HasPrefix(hs[j.hi].name, "H10") || strings.HasPrefix(hs[j.hi].name, "H11") || strings.HasPrefix(hs[j.hi].name, "H12")
+			three := c06Three(hs[j.hi].name)
 			if three {
 				b-- // three threads: one preemption less
 			}
@@ -1336,8 +1351,8 @@ func init() {
 			"explanation_c06": "every schedule (choice sequence at lock acquisitions and storage calls) with at most the stated number of preemptions is executed on the real code; the -race build runs the same enumeration with the race detector active inside each schedule (the scheduler's hand-off uses raw futex calls from norace code and adds no happens-before edge)"}
 		res.Assumptions = []string{
 			"scheduling points: every Lock/RLock of the sync primitives used by iavl (rebuilt against the shim) and every storage call; code between two points runs atomically in the explorer (races inside such blocks are the race detector's job)",
-			"harnesses H1-H12: 2-3 threads, <= 3 operations each, one writer; H4 (export pinning vs pruning: the exporter goroutine and its channel run under the scheduler) and H5 (background pruning loop, SetCommitting/UnsetCommitting) use the rewritten export.go / nodedb.go of the sched build and are skipped (recorded in skipped_harnesses) if the rewrite does not apply to the current tree",
-			"the storage is check/vstore (MemDB-like locking, snapshot iterators)",
+			"harnesses H1-H13: 2-3 threads, <= 3 operations each, one writer; H4 (export pinning vs pruning: the exporter goroutine and its channel run under the scheduler) and H5 (background pruning loop, SetCommitting/UnsetCommitting) use the rewritten export.go / nodedb.go of the sched build and are skipped (recorded in skipped_harnesses) if the rewrite does not apply to the current tree",
+			"the storage is check/vstore (MemDB-like locking, snapshot iterators) in H1-H12; H13 runs over the bundled db.MemDB rebuilt against the shim (its RWMutex, the traversal goroutine of every iterator and the iterator channel are scheduling points; look-ahead buffer configured down from 64 to 1), skipped and recorded if db/memdb.go no longer has the expected shape",
 		}
 		return res
 	}
